@@ -22,7 +22,25 @@ func main() {
 	evdir := flag.String("evidence-dir", "/verif/evidence", "directory for evidence files ('' = none)")
 	known := flag.String("known", "/verif/known_findings.json", "known findings file")
 	verbose := flag.Bool("v", false, "print every obligation")
+	dumpKinds := flag.Bool("dump-kinds", false, "print the result-kind table of the builtins and exit")
 	flag.Parse()
+	if *dumpKinds {
+		w, err := loadWorld(*repo, false, "", nil)
+		if err != nil {
+			fmt.Println(err)
+			os.Exit(2)
+		}
+		rk := resultKinds(w, newEngine(w))
+		var names []string
+		for n := range rk {
+			names = append(names, n)
+		}
+		sort.Strings(names)
+		for _, n := range names {
+			fmt.Printf("\t%q: %q,\n", n, rk[n])
+		}
+		return
+	}
 	if t := os.Getenv("VERIF_TIER"); t != "" && *tier == "" {
 		*tier = t
 	}
